@@ -340,3 +340,20 @@ class Pristine:
             self.p.wait(timeout=10)
         except Exception:
             self.p.kill()
+
+
+def model_tie(ctx, docs, cfgname="core", kind="doc", limit=None):
+    """Concrete-model correspondence: the Lean parser model vs the implementation on the given documents
+    (full token trees).  Disagreements break the tie (they are not violations by themselves)."""
+    import corr_model
+    side = corr_model.Side(cfgname)
+    ds = [d for d in docs if not has_surrogate(d) and len(d) <= 600]
+    if limit:
+        ds = ds[:limit]
+    bad = corr_model.compare(side, kind, ds)
+    for s, want, got in bad[:3]:
+        ctx.broken.append("model-correspondence (%s/%s): on %r the implementation gives %s, the Lean model %s" % (kind, cfgname, s[:80], want[:160], got[:160]))
+    ctx.cov["model_docs_compared"] = ctx.cov.get("model_docs_compared", 0) + len(ds)
+    ctx.cov["model_disagreements"] = ctx.cov.get("model_disagreements", 0) + len(bad)
+    ctx.cov["traces_validated_against_impl"] = ctx.cov.get("traces_validated_against_impl", 0) + len(ds)
+    return len(bad)
